@@ -249,6 +249,13 @@ def check(P: Project, R: Report) -> None:
         for s in walk_local(ce.node):
             if isinstance(s, ast.For) and ast.unparse(s.iter) in (f"{S}.items()", f"list({S}.items())") and isinstance(s.target, ast.Tuple) and len(s.target.elts) == 2:
                 k, v = (ast.unparse(e) for e in s.target.elts)
+                appends = [c for c in walk_local(s) if isinstance(c, ast.Call) and call_name(c).endswith(".append") and c.args and ast.unparse(c.args[0]) == k]
+                early = [x for x in walk_local(s) if isinstance(x, (ast.Break, ast.Return))]
+                if appends and early:
+                    sel_var = call_name(appends[0])[: -len(".append")]
+                    sel_ok = False
+                    sel_detail = f"the selection loop stops early (`{type(early[0]).__name__.lower()}` at line {early[0].lineno}): sessions after that point are not examined, so some that are idle longer than max_age survive"
+                    break
                 if len(s.body) == 1 and isinstance(s.body[0], ast.If) and not s.body[0].orelse and len(s.body[0].body) == 1:
                     inner = s.body[0].body[0]
                     if isinstance(inner, ast.Expr) and isinstance(inner.value, ast.Call) and call_name(inner.value).endswith(".append") and ast.unparse(inner.value.args[0]) == k:
